@@ -13,10 +13,11 @@ import time
 import traceback
 
 HERE = os.path.dirname(os.path.dirname(os.path.abspath(__file__)))
-EVIDENCE_DIR = os.path.join(HERE, 'evidence')
-REPLAY_DIR = os.path.join(HERE, 'replays')
+_OUT = os.environ.get('VK_OUT') or HERE          # VK_OUT: scratch output directory for runs against a mutated copy
+EVIDENCE_DIR = os.path.join(_OUT, 'evidence')
+REPLAY_DIR = os.path.join(_OUT, 'replays')
 KNOWN_FILE = os.path.join(HERE, 'known_findings.json')
-REPO = '/repo'
+REPO = os.environ.get('VK_REPO', '/repo').rstrip('/')   # the tree under analysis (default: /repo's working tree)
 
 EXIT_OK, EXIT_VIOLATION, EXIT_HARNESS = 0, 1, 2
 
@@ -36,8 +37,8 @@ class FuncProfile:
         if event == 'call':
             co = frame.f_code
             fn = co.co_filename
-            if fn.startswith('/repo/mosaik/'):
-                self.seen.add(f"{fn[len('/repo/'):]}:{co.co_qualname}")
+            if fn.startswith(REPO + '/mosaik/'):
+                self.seen.add(f"{fn[len(REPO) + 1:]}:{co.co_qualname}")
 
 
 def _short(v, n=400):
@@ -203,6 +204,18 @@ def _subset(pattern, obj):
     return pattern == obj
 
 
+def _match_one(m, viol, job):
+    if 'rule' in m and not re.fullmatch(m['rule'], viol['rule']):
+        return False
+    if 'msg_re' in m and not re.search(m['msg_re'], viol.get('msg') or ''):
+        return False
+    if 'extra' in m and not _subset(m['extra'], viol.get('extra') or {}):
+        return False
+    if 'params' in m and not _subset(m['params'], job.get('params') or {}):
+        return False
+    return True
+
+
 def match_known(known, prop, viol, job):
     """Return the open known finding that lists this violation, or None."""
     for k in known:
@@ -210,14 +223,8 @@ def match_known(known, prop, viol, job):
             continue
         if prop not in k.get('properties', [k.get('property')]):
             continue
-        m = k['match']
-        if 'rule' in m and not re.fullmatch(m['rule'], viol['rule']):
-            continue
-        if 'msg_re' in m and not re.search(m['msg_re'], viol.get('msg') or ''):
-            continue
-        if 'extra' in m and not _subset(m['extra'], viol.get('extra') or {}):
-            continue
-        if 'params' in m and not _subset(m['params'], job.get('params') or {}):
+        ms = k['match'] if isinstance(k['match'], list) else [k['match']]
+        if not any(_match_one(m, viol, job) for m in ms):
             continue
         return k
     return None
